@@ -295,7 +295,7 @@ Section WStream.
         match ws_hk s with
         | None => raise EAttribute
         | Some hk =>
-            if negb (hk_accepted hk) then ws_send_error_response 400 ;; wset_closed
+            if negb (hk_accepted hk) then wset_closed ;; ws_send_error_response 400     (* closed first: the application may try to accept meanwhile *)
             else
               emit (OLib [VS "ws.receive_data"]) ;;
               ws_handle_events evs
